@@ -37,6 +37,9 @@ func envInt(name string, def int) int {
 func safeRun(t *testing.T, f *Family, in []string) (out string) {
 	defer func() {
 		if r := recover(); r != nil {
+			if os.Getenv("HARNESS_NORECOVER") != "" {
+				panic(r)
+			}
 			msg := fmt.Sprint(r)
 			msg = strings.ReplaceAll(msg, "\n", " ")
 			msg = strings.ReplaceAll(msg, "|", "/")
